@@ -33,6 +33,25 @@ UE == << Fe("F1", <<>>, <<>>, <<Sc("S1", <<>>, <<"run">>)>>, <<>>),
          Fe("F2", <<>>, <<>>, <<Sc("S2", <<"retry(1)">>, <<"run">>)>>, <<>>),
          Fe("F3", <<>>, <<>>, <<Sc("S3", <<>>, <<"run">>)>>, <<>>) >>
 
+\* Summarize / combinators / reporters: a background step, a retried scenario with
+\* one own step, and a scenario without own steps
+US1 == << Fe("F1", <<>>, <<"run">>, <<Sc("S1", <<"retry(2)">>, <<"run">>),
+                                     Sc("S2", <<"retry(1)">>, <<>>)>>, <<>>) >>
+\* a rule, an @allow.skipped scenario, an untagged one, two features
+US2 == << Fe("F1", <<>>, <<>>, <<Sc("S1", <<"retry(1)">>, <<"run", "run">>)>>,
+             <<Ru("R1", <<"allow.skipped">>, <<"run">>, <<Sc("S2", <<>>, <<"run">>)>>)>>),
+          Fe("F2", <<>>, <<>>, <<Sc("S3", <<"allow.skipped">>, <<"run">>)>>, <<>>) >>
+\* no retries at all
+US3 == << Fe("F1", <<>>, <<"run">>, <<Sc("S1", <<>>, <<"run", "run">>), Sc("S2", <<>>, <<>>)>>,
+             <<Ru("R1", <<>>, <<>>, <<Sc("S3", <<>>, <<"run">>)>>), Ru("R2", <<>>, <<>>, <<>>)>>) >>
+
+\* combinators (C13): untagged scenario with a background, @allow.skipped on a rule,
+\* on a feature and on a scenario
+UK == << Fe("F1", <<>>, <<"run">>, <<Sc("S1", <<"retry(1)">>, <<"run">>)>>,
+            <<Ru("R1", <<"allow.skipped">>, <<"run">>, <<Sc("S2", <<>>, <<"run">>)>>)>>),
+         Fe("F2", <<"allow.skipped">>, <<>>, <<Sc("S3", <<>>, <<"run">>)>>, <<>>),
+         Fe("F3", <<>>, <<>>, <<Sc("S4", <<"allow.skipped">>, <<"run">>)>>, <<>>) >>
+
 Fails1 == [s \in {"S1", "S2", "S3"} |-> 1]   \* every retried scenario fails once
 Fails0 == [s \in {"S1", "S2", "S3"} |-> 0]
 FailsAll == [s \in {"S1", "S2", "S3"} |-> 5]
